@@ -630,7 +630,9 @@ M('balanced-D24-shape', ['C05'], Z, "out_nrequested + (requested and not ephemer
 M('prefix-D25-shape', ['C02', 'C03'], Z, "                    if topic and not sender.subscribed_all and topic not in sender.recvd_new:  # zmq.SUBSCRIBE matches prefixes, '/a/' also lets '/a/b/' through\n                        topic = ''  # not subscribed to, only the id and the topic list count\n", "", ['C02.R5', 'C03.R11'])
 M('prefix-guard-only-when-subscribed-all', ['C02'], Z, "if topic and not sender.subscribed_all and topic not in sender.recvd_new:", "if topic and sender.subscribed_all and topic not in sender.recvd_new:", ['C02.R5'])
 M('loop-D26-shape-propagate-swallowed', ['C08'], F, "                                except Filter.PropagateError:  # obeying another filter's error exit is not an error of the loop to log and carry on from\n                                    raise\n", "", ['C08.R1'])
-M('send-D27-shape-none-path-no-poll', ['C08'], MQ, "            if self.sender is not None:  # nothing to publish, but the request sockets still need reading: exit messages from downstream arrive there\n                self.sender.poll()\n", "", ['C08.R7'])
+M('send-D27-shape-none-path-no-poll', ['C08'], MQ, "            self.poll()  # nothing to publish, but the request sockets still need reading: exit messages from downstream arrive there\n", "", ['C08.R7'])
+M('mq-poll-never-reaches-sender', ['C08'], MQ, "        if self.sender is not None:\n            self.sender.poll()\n\n    def send(", "        if self.sender is None:\n            self.sender.poll()\n\n    def send(", ['C08.R7'])
+M('wait-D36-shape-recv-wait-deaf', ['C08'], F, "            self.mq.poll()  # an exit message from downstream must be heard while waiting for upstream too\n", "", ['C08.R7'])
 M('poll-publishes', ['C08'], Z, "        self.send(lambda: None, timeout=0)", "        self.send(lambda: {}, timeout=0)", ['C08.R7'])
 M('required-D28-shape', ['C03', 'C06'], Z, "client_ids = set(client.client_id for client in clients.values() if client.t_last >= t_min)", "client_ids = set(client.client_id for client in clients.values())", ['C03.R6', 'C06.R10'])
 M('cli-D30-shape-empty-value-dropped', ['C12'], CLI, "            return param, True  # '--param=' is a '--param' without a value\n", "            return None, None\n", ['C12.R8'])
